@@ -209,3 +209,25 @@ Theorem C04_time_bracket : forall (dl last_lo last last_hi now_lo now now_hi : Z
   (last + dl <? now)%Z = (last_hi + dl <? now_lo)%Z.
 Proof. exact time_bracket_proof. Qed.
 Print Assumptions C04_time_bracket.
+
+(* ---- the creation rule as a table of address classes (Spec/HostTracking.v: class6_table, class4m_table) ----
+   For ALL IPv6 sources: the reference's rule is the verdict of the address's row -- Never (unspecified, loopback, multicast
+   of every scope, IPv4-mapped 0.0.0.0 / 127/8 / 224/4 / 255.255.255.255), Always (link-local fe80::/10, IPv4-mapped
+   169.254/16), NotFromRouter (everything else: IPv4-compatible, NAT64, 2000::/3 with Teredo / documentation / 6to4,
+   unique local fc00::/8 and fd00::/8, site-local, other IPv4-mapped).  A class silently dropped from the rule is a
+   concrete failing frame of the address-class histories.  IPv4 sources and ARP senders: the home LAN prefix alone. *)
+Theorem C04_creation_rule_by_class : forall c f a, f_class f = FIP6 -> f_ip f = IP6 a -> a < 2 ^ 128 ->
+  ref_event c f =
+  if unicast_mac (f_src f) && negb (f_src f =? own_mac c) then
+    match verdict6 a with
+    | Some v => if verdict_holds v (f_src f =? rt_mac c) then Some (f_src f, IP6 a) else None
+    | None => None
+    end
+  else None.
+Proof. exact creation_rule_by_class_proof. Qed.
+Print Assumptions C04_creation_rule_by_class.
+
+(* the representatives the harness sends, one or more per row, on the MODEL's predicate, from a client and from the router *)
+Example C04_address_class_examples : forallb (class_example_ok std_cfg) class_examples = true.
+Proof. exact class_examples_ok. Qed.
+Print Assumptions C04_address_class_examples.
